@@ -63,8 +63,8 @@ from typing import Any, Iterator, Optional
 
 import numpy as np
 
-DT = {"i64": np.int64, "f32": np.float32, "bool": np.bool_}
-NUMERIC = ("i64", "f32")
+DT = {"i64": np.int64, "f32": np.float32, "bool": np.bool_, "f64": np.float64, "i32": np.int32, "f16": np.float16}
+NUMERIC = ("i64", "f32", "f64", "i32", "f16")  # (the last three only through `retype`: the generators draw i64 / f32)
 N = 3  # base vector length
 
 ONNX_NAME = {
@@ -362,7 +362,7 @@ class _Gen:
             if a is None:
                 return
             t = self.tyof(a)
-            to = rng.choice([d for d in DT if d != t[0]])
+            to = rng.choice([d for d in ("i64", "f32", "bool") if d != t[0]])
             self.add("Cast", [a], attrs={"to": to}, tys=[ty(to, t[1], t[2])])
             return
         if choice == "where":
@@ -1126,9 +1126,9 @@ def random_binding(prog, rng: random.Random, index: Optional[int] = None) -> dic
             vals = [rng.randint(0, 3) for _ in range(cnt)]
         elif n["attrs"].get("range") == "special":
             vals = [rng.choice([0.0, -0.0, 1.0, -1.5, 2.0, -3.0, 0.5]) for _ in range(cnt)]
-        elif t[0] == "i64":
+        elif t[0] in ("i64", "i32"):
             vals = [rng.randint(-4, 4) for _ in range(cnt)]
-        elif t[0] == "f32":
+        elif t[0] in ("f32", "f64", "f16"):
             vals = [rng.randint(-6, 6) / 2.0 for _ in range(cnt)]
         else:
             vals = [rng.random() < 0.5 for _ in range(cnt)]
@@ -2956,3 +2956,28 @@ def upgrade_programs() -> Iterator[tuple[dict, str]]:
         else:
             out = iff(loop((x, 0)), (x, 0))
         yield {"nodes": nodes, "outputs": [list(out)], "opset": 17}, place
+
+
+RETYPE_SAFE = {"arg", "Add", "Sub", "Mul", "Neg", "Identity", "If", "Loop", "Scan"}
+
+
+def retype(prog, dtype: Optional[str] = None, length: Optional[int] = None) -> Optional[dict]:
+    """The same program over another element type and / or vector length: every `i64` VECTOR type (`[N]`, `[2, N]`)
+    becomes (`dtype`, `[length]` / `[2, length]`) — `length = 0` gives zero-length tensors; scalars (trip counts,
+    conditions) stay.  Only for programs over the type-generic operators (`RETYPE_SAFE`) without constants of the
+    retyped kind; the result is re-derived by `typecheck`.  None when the program does not qualify."""
+    if any(n["op"] not in RETYPE_SAFE and not (n["op"] == "Constant" and n["ty"][0][1] == []) for n in prog["nodes"]):
+        return None
+
+    def conv(t):
+        t = list(t)
+        if t[0] == "i64" and not t[2] and len(t[1]) >= 1 and t[1][-1] == N:
+            return [dtype or "i64", t[1][:-1] + [N if length is None else length], t[2]]
+        return t
+
+    out = json.loads(json.dumps(prog))
+    for n in out["nodes"]:
+        n["ty"] = [conv(t) for t in n["ty"]]
+    if check_wellformed(out) or typecheck(out):
+        return None
+    return out
